@@ -51,7 +51,7 @@ def determinism(prop, n=200) -> int:
     procs = []
     configs = [("hs0-a", "0"), ("hs0-b", "0"), ("hs12345", "12345"), ("hs987", "987")]
     mod = runner.load(prop)
-    if getattr(mod, "HASHSEED_IN_SPEC", False):
+    if getattr(mod, "HASHSEED_IN_SPEC", False) and not os.environ.get("VERIF_SELFTEST_ALLHS"):
         configs = [("hs0-a", "0"), ("hs0-b", "0"), ("hs0-c", "0")]
     for name, hs in configs:
         env = dict(os.environ, PYTHONHASHSEED=hs)
@@ -76,6 +76,11 @@ def determinism(prop, n=200) -> int:
     allref = {v[0] for v in ref.values()}
     stray = [d for d in total["digests"] if d not in allref]
     if stray:
+        inv = {}
+        for name, _ in configs:
+            for r, v in results[name].items():
+                inv.setdefault(v[0], r)
+        print("  stray digests:", stray[:5])
         bad += len(stray)
         print(f"NONDETERMINISTIC: property={prop} {len(stray)} digests from the 16-process batch do not occur in the single-process run")
     print(f"[selftest-determinism {prop}] seeds={n} configs={[c[0] for c in configs]}+batch16 mismatches={bad} wall={time.time() - t0:.1f}s")
